@@ -16,6 +16,7 @@ Case kinds
          `parse_colang_file` inside the real `_parse_colang_files_recursively`; same oracle and model.
 """
 import contextlib
+import functools
 import glob
 import io
 import json
@@ -625,6 +626,8 @@ def apply_edit_v2(pieces, e):
             else:
                 out.append(p)
         return out
+    if op == "crlf":  # the whole file with CRLF line ends (a `\r` in front of every line break outside tokens = trailing whitespace)
+        return [["n", True] if p[0] == "n" else p for p in pieces]
     if op == "blank0":  # blank line before the first line
         return ws_pieces(e["ws"]) + [["n", e.get("cr", False)]] + pieces
     pos = break_positions(pieces, e.get("kw", False), e.get("aim"))
@@ -681,8 +684,10 @@ def _gen_edit_v2(rng, allow_tab=True, kw=None):
     if r < 0.8:
         return {"op": "comment", "at": rng.randrange(10 ** 6), "kw": kw, "gap": rng.choice(["", " ", "  "]),
                 "text": rng.choice(["# note", "#", "# flow x", "#  define y ", "# \"quoted\" 'x'", "# tab\there", "# ünï ✓", "## $v = 1 (", "# ...", "# meta: exclude from llm"])}
-    if r < 0.97:
+    if r < 0.94:
         return {"op": "scale", "k": rng.choice([2, 2, 3, 4])}
+    if r < 0.97:
+        return {"op": "crlf"}
     return {"op": "blank0", "ws": rng.choice(["", " ", "  "]), "cr": False}
 
 
@@ -725,6 +730,11 @@ def v1_comment_lines(raw, in_string=()):
 
 
 def v1_boundaries(content):
+    return _v1_boundaries(content)
+
+
+@functools.lru_cache(maxsize=64)
+def _v1_boundaries(content):
     """(safe insertion indices for a blank line, indices of lines that may get trailing blanks).  A blank line is meaningless
     layout everywhere except inside a multi-line string (taken from the REAL numbered lines) and between a line ending in
     `\\` / ` or` and its continuation (syntactic, conservative).  In particular it IS layout between a comment and the statement
@@ -773,6 +783,11 @@ def deblank_v1(content):
 
 
 def v1_comment_positions(content):
+    return _v1_comment_positions(content)
+
+
+@functools.lru_cache(maxsize=64)
+def _v1_comment_positions(content):
     """(insertion indices next to a comment line, comment lines and their neighbours) - where the 1.0 layout edits are aimed"""
     raw = content.split("\n")
     safe, trail_ok = v1_boundaries(content)
@@ -798,6 +813,9 @@ def apply_edit_v1(content, e):
             out.append(" " * (n * e["k"]) + l[n:])
         return "\n".join(out)
     safe, trail_ok = v1_boundaries(content)
+    if op == "crlf":  # CRLF line ends: a trailing `\r` on every line outside multi-line strings
+        ok = set(trail_ok)
+        return "\n".join(l + "\r" if i in ok and i < len(raw) - 1 and not l.endswith("\r") else l for i, l in enumerate(raw))
     if e.get("aim") == "comment":
         # next to a comment line: between a comment and the statement it documents, between two comment lines, inside a block
         cpos, ctl = v1_comment_positions(content)
@@ -827,8 +845,10 @@ def _gen_edit_v1(rng):
     r = rng.random()
     if r < 0.4:
         return {"op": "blank", "at": rng.randrange(10 ** 6), "ws": rng.choice(["", "", " ", "    ", "\t", " \t "])}
-    if r < 0.75:
+    if r < 0.72:
         return {"op": "trail", "at": rng.randrange(10 ** 6), "ws": rng.choice([" ", "  ", "\t", " \t", "\r"])}
+    if r < 0.77:
+        return {"op": "crlf"}
     return {"op": "scale", "k": rng.choice([2, 3, 4])}
 
 
@@ -1417,6 +1437,11 @@ MAX_MODEL_PIECES = 6000
 MAX_TEXTSEG_CHARS = int(os.environ.get("VERIF_C13_TEXTSEG", "4000"))
 
 
+def scale_text_py(text, k):
+    """every blank of the run of blanks directly after a line break, k times (what `TextLayout.scaleText k false` does)"""
+    return re.sub(r"(?<=\n)[ \t]+", lambda m: "".join(ch * k for ch in m.group(0)), text)
+
+
 def token_table(pieces):
     """[offset, type, length] of the body tokens of a segmentation = the oracle of the character-level scanner"""
     out, pos = [], 0
@@ -1455,6 +1480,9 @@ def model_requests(case, obs):
             # character level: Lean scans the text itself; only WHICH body terminal starts where (and how long it is) comes from the real lexer
             reqs += [{"m": "C13.textseg", "text": obs["mtext"], "toks": token_table(obs["mpieces"])},
                      {"m": "C13.textseg", "text": obs["metext"], "toks": token_table(obs["mepieces"])}]
+            if len(edits) == 1 and edits[0]["op"] == "scale" and scale_text_py(obs["mtext"], edits[0]["k"]) == obs["metext"]:
+                # `text_layout_scale`: Lean's own `scaleText k` of the original text must be the edited text and scan to its pieces
+                reqs.append({"m": "C13.textseg", "text": obs["mtext"], "k": edits[0]["k"], "toks": token_table(obs["mepieces"])})
         return reqs
     if obs.get("version") == "1.0" and k in ("v1", "file"):
         if not HAVE_NUMBERED:
@@ -1557,6 +1585,13 @@ def compare(case, obs, mouts):
     k = case["kind"]
     mouts = _unsafe(mouts)
     if obs.get("version") == "2.x" and k in ("tok", "v2", "file"):
+        if mouts and "text" in mouts[-1]:
+            m = mouts[-1]
+            mouts = mouts[:-1]
+            if m["text"] != obs["metext"]:
+                return "Lean's scaleText of the original text is not the scaled text"
+            if m.get("seg") != obs["mepieces"]:
+                return "character-level scanner on Lean's scaled text does not give the pieces of the scaled text: " + json.dumps(m.get("segerr") or "pieces differ")
         if "mtext" in obs and len(mouts) >= 2 and all(("seg" in m or "segerr" in m) for m in mouts[-2:]):
             for m, real, what in zip(mouts[-2:], (obs["mpieces"], obs["mepieces"]), ("original", "edited")):
                 if "segerr" in m:
@@ -1615,13 +1650,9 @@ def compare(case, obs, mouts):
             if not mouts:
                 return None
         m = mouts[0]
-        rs = obs.get("raise_site") or {}
-        if rs.get("kind") == "explicit" and "inner" in obs and obs["inner"]["cls"] not in rs["static"] and "<reraise>" not in rs["static"]:
-            return f"static scan of raise sites: {rs['file']}:{rs['line']} is listed with {rs['static']}, but a {obs['inner']['cls']} was raised there"
-        if rs.get("kind") == "engine" and not rs.get("known"):
-            return f"static scan of raise sites: lark raised {obs['inner']['cls']}, which is not among the listed engine classes"
-        if rs.get("kind") == "error":
-            return "raise-site cross-check failed: " + rs.get("msg", "")
+        # NOTE: the raise-site cross-check (obs["raise_site"]) is a coverage statistic only (tags): a `raise` / `assert` line can
+        # also raise while its own condition or message is evaluated (`assert params_str[-1] == ")"` -> IndexError), and lark can
+        # raise builtin errors of its own - neither contradicts the scan.
         if obs["outcome"] == "ok":
             return None if m.get("returned") else f"loader returned, model says {json.dumps(m)[:160]}"
         if m.get("returned"):
@@ -1809,10 +1840,20 @@ def tags(case, obs):
         t.append("orig:" + ("parses" if "ok" in obs["ast"] else "unparsable:" + str(obs["ast"].get("exc"))))
     if obs.get("reseg_same") is False:
         t.append("edit-inside-token")
+    if "mtext" in obs:
+        t.append("textseg")
+        ed = _edits_of(case, obs)
+        if len(ed) == 1 and ed[0]["op"] == "scale":
+            t.append("text-scale-instance:" + ("checked" if scale_text_py(obs["mtext"], ed[0]["k"]) == obs["metext"] else "not-applicable(multi-line token)"))
     if k in ("err", "fmt"):
         t.append("outcome:" + obs.get("outcome", "?") + (":" + obs.get("cls", "") if obs.get("outcome") == "raised" else ""))
         if "raise_site" in obs:
-            t.append("raise-site:" + obs["raise_site"].get("kind", "?"))
+            rs = obs["raise_site"]
+            t.append("raise-site:" + rs.get("kind", "?"))
+            if rs.get("kind") == "explicit" and "inner" in obs:
+                t.append("raise-site:explicit:" + ("listed-class" if obs["inner"]["cls"] in rs.get("static", []) else "other-class-while-evaluating-the-statement"))
+            if rs.get("kind") == "engine" and not rs.get("known"):
+                t.append("raise-site:engine:builtin-error-inside-lark")
         if "inner" in obs:
             t.append("inner:" + obs["inner"]["cls"] + ":line=" + ("int" if isinstance(obs["inner"]["line"], int) else str(obs["inner"]["line"])))
     return t
